@@ -67,9 +67,9 @@ def classify(tr, l):
     if e.get("e") == "result":
         if e.get("bad"):
             key += ":wrong-bytes"
-        elif a.get("damaged") and not e.get("raised"):
+        elif (a.get("damaged") or a.get("failsink")) and not e.get("raised"):
             key += ":worker-error-lost"
-        elif e.get("raised") and not a.get("damaged"):
+        elif e.get("raised") and not (a.get("damaged") or a.get("failsink")):
             key += ":spurious-error:" + e.get("exc", "").split(":")[0]
         else:
             key += ":outputs-differ-from-sequential"
@@ -95,6 +95,12 @@ def run(tier, rep, ev):
         ev.add_tlc(r, f"ParallelMC({sz},{dmg},{mode})")
         if not r.ok:
             rep.note_drift(f"Parallel model violates {r.violated} for {sz} {dmg} {mode}")
+    # the error met at the LAST member of a folder (unwritable output), earlier members delivered
+    for (nf, sz, dmg, mode) in [(3, "S212", "{1}", "thread"), (2, "S22", "{2}", "process"), (2, "S22", "{1}", "seq"), (3, "S222", "{1, 3}", "thread")]:
+        r = tlc.run("ParallelMC", cfg_text=MC % (nf, sz, dmg, mode, "TRUE", "FALSE") + "CONSTANT FailLast <- FailLastOn\n", workers=8)
+        ev.add_tlc(r, f"ParallelMC({sz},{dmg},{mode},fail at last member)")
+        if not r.ok:
+            rep.note_drift(f"Parallel model violates {r.violated} for {sz} {dmg} {mode} with FailLast")
     rn = tlc.run("ParallelMC", cfg_text=MC % (2, "S22", "{2}", "process", "FALSE", "FALSE"), workers=4)
     ev.cov["negative_control"] = {"cfg": "process mode, child queues invisible to the parent", "violated": rn.violated or "NOTHING"}
     if rn.ok:
@@ -143,6 +149,12 @@ def run(tier, rep, ev):
         for f in range(1, len(sizes) + 1):
             for mode, sink in (("process", "path"), ("thread", "path"), ("thread", "factory"), ("seq", "factory")):
                 add(sizes=sizes, mode=mode, sink=sink, damaged=[f], seed=f, schedule=[], incompressible=True, coder=["lzma2", "deflate", "bzip2", "copy"][(f + len(cases)) % 4])
+        # "unwritable output": the last member of one folder cannot be written (product raising ENOSPC / a directory in the file's place)
+        for f in range(1, len(sizes) + 1):
+            for s in R.sample(sch, min(len(sch), 3 if tier == "quick" else 20)):
+                add(sizes=sizes, mode="thread", schedule=s, failsink=[f], sink="factory", seed=f)
+            for mode, sink in (("thread", "path"), ("process", "path"), ("seq", "factory"), ("seq", "path")):
+                add(sizes=sizes, mode=mode, sink=sink, failsink=[f], seed=f, schedule=[])
         # members of different folders under one directory without an entry of its own: the workers meet while creating it
         for k in range(2 if tier == "quick" else 12):
             add(sizes=sizes, mode="thread", sink="path", schedule=[], seed=k, shared_parent=True, mkdir_rendezvous=True, coder=["lzma2", "copy"][k % 2])
